@@ -15,6 +15,9 @@ Sub-checks
   rnd_*   random larger arrays (0..200 rows), grid scaled by a unit, realistic epoch offsets, mixed encodings.
   unsorted        inputs violating sortedness must be rejected by the five functions that promise the check.
   exh_sort/rnd_sort/sort_kinds   sort_by_time / stable_sort / stable_argsort == Python's stable sorted().
+  fixed   hand-computed examples (anchor for the reference model).
+
+Known findings: F1730 (float64 sort key without channel field), F1731 (fallback sort path not stable).
 """
 import functools
 import warnings
@@ -45,9 +48,11 @@ RULE = (
     "encoding pairs; exh_gaps: diff/_find_break_i/from_break on all 25 761 sequences x safe_break x not_before x "
     "left/right; exh_overlap: overlap_indices on all small integer ranges; exh_sort: all sequences of <=4 rows "
     "over 3 times x 3 channels).  thorough = every descriptor, quick = a seed-chosen pseudo-random slice "
-    "(exh_contain 1/8, exh_touch 1/48, exh_touch_weak 1/40; exh_prevnext, exh_gaps, exh_overlap, exh_sort are complete in "
-    "both tiers).  "
-    "rnd_* sub-checks draw shape parameters from Hypothesis and build arrays of 0..200 rows from the descriptor's "
+    "(exh_contain 1/10, exh_touch 1/64, exh_touch_weak 1/48; exh_prevnext, exh_gaps, exh_overlap, exh_sort are complete in "
+    "both tiers; `fixed` = hand-computed examples for every primitive x encoding pair, also committed as a "
+    "regression replay).  The runner's "
+    "`inner` counter is the number of (things, containers[, window]) configurations evaluated inside the "
+    "descriptors.  rnd_* sub-checks draw shape parameters from Hypothesis and build arrays of 0..200 rows from the descriptor's "
     "seed (grid scaled by a unit, epoch offsets, mixed encodings; containers partly derived from the things so "
     "that endpoints coincide).  A case is non-trivial when some endpoint of a thing coincides with an endpoint of "
     "a container/interval, or an input is empty, or the window is non-zero (for sort checks: some key tie; for "
@@ -143,7 +148,8 @@ def _typed_list_to_list(tl):
 
 def as_list(sp):
     """numba.typed.List -> plain list of arrays.  Touching a typed list from Python (len, [], iteration) makes
-    numba compile un-cached accessors in every worker process (~10 s); this cached helper only copies references."""
+    numba compile one accessor per method and list type in every worker process (~10 s); this helper only copies
+    the references out in one jitted loop."""
     if isinstance(sp, list):
         return sp
     return _typed_list_to_list(sp)
@@ -283,7 +289,7 @@ def enum_contain(tier, seed):
                 for ec in ENCS:
                     yield dict(things=lists(t), enc=[et, ec])
 
-    return sliced(gen_all(), tier, seed, 8)
+    return sliced(gen_all(), tier, seed, 10)
 
 
 @quiet
@@ -365,7 +371,7 @@ def enum_touch(tier, seed):
                 for e in ENCS:
                     yield dict(things=lists(t), w=w, enc=[e, e])
 
-    return sliced(gen_all(), tier, seed, 48)
+    return sliced(gen_all(), tier, seed, 64)
 
 
 def enum_touch_weak(tier, seed):
@@ -375,7 +381,7 @@ def enum_touch_weak(tier, seed):
                 for e in ENCS:
                     yield dict(things=lists(t), w=w, enc=[e, e], maxc=3 if len(t) <= 3 else 2)
 
-    return sliced(gen_all(), tier, seed, 40)
+    return sliced(gen_all(), tier, seed, 48)
 
 
 def _run_exh_touch(d, exact):
@@ -1059,10 +1065,9 @@ def run_unsorted(d):
 
 
 # ------------------------------------------------------------------------------------------------
-# fixed hand-computed examples (anchor for the reference model; the committed replay of this sub-check runs in
-# the single-process replay tier and thereby also compiles every numba signature used below before the 16
-# shard workers start - concurrent first compilation of *different* signatures of one function by several
-# processes is not safe with numba's on-disk cache)
+# fixed hand-computed examples: an anchor for the reference model that shares nothing with it (literal expected
+# values), for every primitive and every encoding pair; it also passes once through every other sub-check's code
+# path.  Committed as regression replay replay/C17-fixed-examples.json.
 # ------------------------------------------------------------------------------------------------
 def enum_fixed(tier, seed):
     yield dict(examples="all")
